@@ -177,6 +177,7 @@ func one(id int, dir string) O {
 	case 2:
 		unknown = "patternSyntax"
 	}
+	emptyBranching := rng.Intn(3) == 0
 	mk := func() *core.Spec {
 		s := mach.Build(a)
 		s.Name = "spec" + strconv.Itoa(id)
@@ -193,7 +194,12 @@ func one(id int, dir string) O {
 				s.Nodes["n1"].Branches.Type = "bindings"
 			}
 		case "branching":
-			s.Nodes["start"].Branches.Type = badType
+			if emptyBranching {
+				// a branching section of an unknown type that lists no branches at all
+				s.Nodes["start"].Branches = &core.Branches{Type: badType}
+			} else {
+				s.Nodes["start"].Branches.Type = badType
+			}
 		case "patternSyntax":
 			s.PatternSyntax = "xml"
 		}
@@ -320,7 +326,7 @@ func one(id int, dir string) O {
 		e = trap(func() error { var err error; _, spec, err = sio.ResolveSpecSource(ctx, &crew.SpecSource{URL: "file://" + yf}); return err })
 		add("sio-file-yaml", spec, nil, e)
 	}
-	return O{"id": id, "kind": "load", "unknown": unknown, "badType": badType, "reps": reps, "raw": enc.Canon(O{"spec": a, "unknown": unknown, "seqs": seqs})}
+	return O{"id": id, "kind": "load", "unknown": unknown, "badType": badType, "reps": reps, "raw": enc.Canon(O{"spec": a, "unknown": unknown, "emptyBranching": emptyBranching, "seqs": seqs})}
 }
 
 // documents that are not well-formed specifications: loading and compiling yields a spec or an error (C07)
